@@ -22,6 +22,7 @@ type flowRef struct {
 	Params  map[string]map[string][]string `json:"params"`           // area -> "func | param#i" -> required facts
 	Relax   []string                       `json:"relaxing_options"` // option constructors documented as unsafe: they switch constraints off
 	RelaxOK map[string]map[string]int      `json:"relaxing_sites"`   // area -> function -> reviewed number of call sites passing such an option
+	FnLoop  map[string]map[string][]string `json:"fnloop"`           // area -> "func | loop-sites" -> "Kind#n": constraint sites executed in every iteration of their loop
 	FnMust  map[string]map[string][]string `json:"fnmust"`           // area -> "func | must-sites" -> "Kind#n": constraint sites executed on every successful path
 	FnSites map[string]map[string][]string `json:"fnsites"`          // area -> "func | hint-sites" -> "Kind#n": distinct sink sites reached by the function's hint outputs
 	Exempt  map[string]string              `json:"exempt"`           // "func | source key" -> reason (FLOW-SOME exemptions)
@@ -1094,6 +1095,7 @@ func init() {
 		allF := map[string]map[string][]string{}
 		allR := map[string]map[string]int{}
 		allM := map[string]map[string][]string{}
+		allL := map[string]map[string][]string{}
 		refNow, _ := loadFlowRef()
 		var areas []string
 		for a := range flowAreas {
@@ -1127,6 +1129,13 @@ func init() {
 					allM[a][k] = sl
 				}
 			}
+			allL[a] = map[string][]string{}
+			ml, _ := fnLoop(p, pkgScope(flowAreas[a]...))
+			for k, v := range ml {
+				if sl := siteList(v); len(sl) > 0 {
+					allL[a][k] = sl
+				}
+			}
 			if refNow != nil {
 				rs, _ := relaxSites(p, refNow, pkgScope(flowAreas[a]...))
 				for k, v := range rs {
@@ -1140,7 +1149,7 @@ func init() {
 				}
 			}
 		}
-		b, _ := json.MarshalIndent(map[string]any{"sources": all, "params": allP, "fnsites": allF, "relaxing_sites": allR, "fnmust": allM}, "", " ")
+		b, _ := json.MarshalIndent(map[string]any{"sources": all, "params": allP, "fnsites": allF, "relaxing_sites": allR, "fnmust": allM, "fnloop": allL}, "", " ")
 		fmt.Println(string(b))
 		return 0
 	}
